@@ -480,6 +480,19 @@ class Fn:
             expand(i, (("field", c),), t, 0)
         return out
 
+    def contents_of_vector(self, op):
+        """Origins of the *elements* of a vector operand that this function created empty and
+        filled with push (also through a second vector built from the first by map/collect);
+        None if the vector is not built that way."""
+        old_cache, old_flag = self._origin_cache, getattr(self, "content_flow", False)
+        self._origin_cache = {}
+        self.content_flow = True
+        try:
+            base = self._op_origins(op, (), frozenset())
+            return self._vector_contents(base, (), frozenset())
+        finally:
+            self._origin_cache, self.content_flow = old_cache, old_flag
+
     def storage_of_place(self, place):
         """Origins of a place *as storage*: like origins_of_place, but a call that returns an
         owned value (clone, to_owned, a getter returning a copy) is not looked through -
